@@ -144,5 +144,39 @@ def rule_rearm(prog):
     return res
 
 
+def rule_set_identity(prog):
+    """R-VK-SET-EQ: pending virtual-key operations are kept in hash sets / maps; two different operations must not
+    collapse into one entry, so the element types compare and hash *all* their fields (derived impls)."""
+    import re
+    res = RuleResult("R-VK-SET-EQ", "pending virtual-key operations are distinguished by all their fields", floor=1)
+    K = "kanata_state_machine::kanata::Kanata"
+    adt = prog.adt(K)
+    n = 0
+    for v in adt["variants"]:
+        for fld in v["fields"]:
+            ty = fld["ty"]
+            if not ("HashSet<" in ty or "HashMap<" in ty):
+                continue
+            for a in fld.get("adts", []):
+                if not a.startswith("kanata") or a == K:
+                    continue
+                eqs = [f for f in prog.fns.values() if f.norm == "<%s as core::cmp::PartialEq>::eq" % a]
+                hs = [f for f in prog.fns.values() if f.norm == "<%s as core::hash::Hash>::hash" % a]
+                if not eqs and not hs:
+                    continue
+                n += 1
+                ok = all(f.derive for f in eqs + hs) and bool(eqs) and bool(hs)
+                res.inst("%s/%s" % (fld["name"], a.split("::")[-1]), derived=ok)
+                res.oblige(ok)
+                if not ok:
+                    res.viol("%s/%s" % (fld["name"], a.split("::")[-1]), "src/kanata/mod.rs",
+                             "Kanata.%s stores %s in a hash collection but its PartialEq/Hash are hand-written: entries that differ "
+                             "in a field the impl ignores are treated as the same pending operation and the second one is dropped"
+                             % (fld["name"], a.split("::")[-1]))
+    if n == 0:
+        res.viol("anchors", "src/kanata/mod.rs", "no hash collection of a kanata type found in the Kanata struct")
+    return res
+
+
 def run_all(prog):
-    return [rule_single(prog), rule_once(prog), rule_rearm(prog)]
+    return [rule_single(prog), rule_once(prog), rule_rearm(prog), rule_set_identity(prog)]
